@@ -1,9 +1,10 @@
 (* C16 -- Serialization and memory reclamation are transparent
 
    Model: OPickle is the identity on the model state (what pickling must be); OReclaim drops the candidate
-   tag of nodes whose seeds are known.  PARTIAL: the theorems say reclaim preserves every invariant and
-   changes neither structure nor seeds/sets; that Python's pickle and AEON's text round trip reproduce the
-   fields is runtime behaviour, decided by running two real diagrams side by side.
+   tag of nodes whose seeds are known.  reclaim_transparent: the runs from d and from reclaim d agree op by op on
+   results and on everything observable (obs_eq: all fields except candidates of nodes with known seeds).
+   PARTIAL: that Python's pickle and AEON's text round trip reproduce the fields is runtime behaviour, decided by
+   running two real diagrams side by side.
 
    This file contains only restatements closed by `exact` (statements produced by Coq's own
    `Check` of the library lemma) plus non-vacuity Examples, each followed by Print Assumptions. *)
@@ -11,7 +12,16 @@ From Coq Require Import List Bool Arith NArith Lia Relations Permutation.
 Import ListNotations.
 From BB Require Import BN Brute SpaceFacts TrapFacts PercolateFacts AttractorFacts Diagram Invariants Checks Filter
   Strict PetriNet Control Meta FilterFacts PetriNetFacts TrappistFacts DiagramStruct DiagramSem1 DiagramCache
-  DiagramDepth DiagramComplete Termination ControlFacts MetaFacts Candidates StrictFacts MinExpandFacts CandidatesFacts SymbolicTest SymbolicTestFacts Signed ReductionFacts ControlFacts2 Main.
+  DiagramDepth DiagramComplete Termination ControlFacts MetaFacts Candidates StrictFacts MinExpandFacts CandidatesFacts SymbolicTest SymbolicTestFacts Signed ReductionFacts ControlFacts2 Main Blocks BlocksFacts ObsFacts OwnerFacts CandidatesTerm.
+
+Theorem C16_reclaim_transparent : forall (fuel : nat) (N : net) (cfg : config) (d : sd) (h : list op), Forall2 (fun a b : sd * result => obs_eq (fst a) (fst b) /\ snd a = snd b) (run fuel N cfg d h) (run fuel N cfg (reclaim d) h).
+Proof. exact reclaim_transparent. Qed.
+
+Theorem C16_step_respects_observation : forall (fuel : nat) (N : net) (cfg : config) (d d' : sd) (o : op), obs_eq d d' -> obs_eq (fst (step fuel N cfg d o)) (fst (step fuel N cfg d' o)) /\ snd (step fuel N cfg d o) = snd (step fuel N cfg d' o).
+Proof. exact step_obs_eq. Qed.
+
+Theorem C16_reclaim_obs_eq : forall d : sd, obs_eq d (reclaim d).
+Proof. exact reclaim_obs_eq. Qed.
 
 Theorem C16_reclaim_keeps_wellformed : forall (N : net) (d : sd), SWF N d -> SWF N (reclaim d).
 Proof. exact reclaim_SWF. Qed.
@@ -25,6 +35,9 @@ Proof. exact reclaim_extends. Qed.
 Theorem C16_step_extends : forall (fuel : nat) (N : net) (cfg : config) (d : sd) (o : op), SWF N d -> extends d (fst (step fuel N cfg d o)).
 Proof. exact step_extends. Qed.
 
+Print Assumptions C16_reclaim_transparent.
+Print Assumptions C16_step_respects_observation.
+Print Assumptions C16_reclaim_obs_eq.
 Print Assumptions C16_reclaim_keeps_wellformed.
 Print Assumptions C16_reclaim_CacheOK.
 Print Assumptions C16_reclaim_extends.
